@@ -21,6 +21,11 @@ def run(c):
     else:
         c.drive(drv, ["keepalive", "random", c.seed + 61, c.pick(800, 12000), t, "timed=%d" % c.pick(12, 150)], timeout=3000)
     ok, total = c.tlc_trace("TraceKeepAlive", t, timeout=c.pick(600, 3000))
+    if not c.replay:
+        t2 = c.rundir / "directed.ndjson"
+        c.drive(drv, ["keepalive", "directed", t2], timeout=600)
+        ok2, total2 = c.tlc_trace("TraceKeepAlive", t2, timeout=600)
+        total += total2
     distinct = set()
     cur = None
     for line in open(t):
